@@ -189,7 +189,7 @@ def gen(tier: str, seed: int) -> list[Case]:
     rng = rng_for(seed, PID, "gen")
     gated = gated_features()
     allow_diamond = "inherit:diamond" not in gated
-    n = 30 if tier == "quick" else 400
+    n = 30 if tier == "quick" else 1600
     cases = []
     i = 0
     while len(cases) < n:
